@@ -200,7 +200,7 @@ def emit_update_invariant(R, fam):
     b = R.sub("R10-receiver-call", r'(?<![\w.>])(clearRefinement|proposeUpdatedTensors)\(\)', r'fam_\1(self)', b)
     b = X.balanced_call_sub(R, "R5s-select", b, r'(?<![\w.>])selectTensors\s*(?=\()', lambda m, a: "gset_selected()")
     b = R.sub("R5s-minus", r'\bupdated_tensors\s*-\s*tensors\b', 'gset_minus_tensors(self->updated_tensors)', b)
-    b = R.sub("R5s-plus", r'\bupdated_tensors\s*\+=\s*tensors\s*;', 'self->updated_tensors = gset_plus_tensors(self->updated_tensors);', b)
+    b = R.sub("R5s-plus", r'\bupdated_tensors\s*\+=\s*(\w+)\s*;', lambda m: 'self->updated_tensors = gset_plus_tensors(self->updated_tensors);' if m.group(1) == "tensors" else 'self->updated_tensors = gset_plus_other(self->updated_tensors);', b)
     b = R.sub("R5s-local", r'\bMultiIndexSet\s+(\w+)\s*=', r'gset \1 =', b)
     b = R.sub("R5s-none", r'\bMultiIndexSet\(\)', 'gset_none()', b)
     b = R.sub("R5s-empty", r'(\)|\b\w+)\.empty\(\)', lambda m: ("self->points_empty" if m.group(1) == "points" else m.group(1) + ".empty"), b)
